@@ -6,7 +6,7 @@
    and non-vacuity examples. *)
 From QV.lib Require Import Prelude FinSum DFT DFT2 DFT_Inst.
 From QV.model Require Import C02_Model.
-From QV.proof Require Import C02_Proofs_Index C02_Proofs_Forward C02_Proofs_Inst C02_Proofs_Ext C02_Proofs_ExtInst.
+From QV.proof Require Import C02_Proofs_Index C02_Proofs_Forward C02_Proofs_Inst C02_Proofs_Ext C02_Proofs_ExtInst C02_Proofs_Geom.
 From Coq Require Import QArith Qcanon.
 Local Close Scope Q_scope.
 Local Open Scope Z_scope.
@@ -444,3 +444,81 @@ Example C02_nonvacuous_weights : forall (P Q : nat -> nat -> C) (d1 d2 M wt1 wt2
        [iobj 1 2; iobj 3 1] 6 5 4 3 (iramp 1) (iramp 3) [ikern 1] (scale_modes_w cmul [d1; d2] [P; Q]))
   = cmul (suml c0 cadd [wt1; wt2]) M.
 Proof. exact C02i_weights. Qed.
+
+
+(* ==========================================================================================
+   round 4 — model definitions that harness/c02_tie.py ties to the CURRENT source by theorem on every run
+   (coq/gen_proofs/C02_GenProperties.v); the statements below are about those definitions. *)
+
+(* the patch-index cache of PtychographyDatasetRaster.forward: whatever positions the cache was computed for
+   (learned / clipped / re-preprocessed positions), the indices returned for a batch are the windows of the CURRENT
+   rounded positions — for every scan, batch, object and ROI size *)
+Theorem C02_forward_returns_current_windows :
+  forall H W n m cached_pos cache pos batch,
+    cache = patch_indices_all H W n m cached_pos ->
+    Forall (fun b => 0 <= b < Z.of_nat (length pos)) batch ->
+    fst (fst (forward_indices H W n m cached_pos cache pos batch)) =
+    map (fun b => let p := nth (Z.to_nat b) pos (0 # 1, 0 # 1)%Q in
+                  patch_indices H W n m (round_half_even (fst p)) (round_half_even (snd p))) batch.
+Proof. exact forward_indices_correct. Qed.
+Print Assumptions C02_forward_returns_current_windows.
+
+Example C02_nonvacuous_cache :
+  let old := [(1 # 1, 1 # 1)]%Q in let new := [(9 # 4, 1 # 1)]%Q in
+  need_update old new = true /\
+  fst (fst (forward_indices 6 5 3 2 old (patch_indices_all 6 5 3 2 old) new [0])) = [[[11; 10]; [16; 15]; [6; 5]]] /\
+  need_update old [(5 # 4, 3 # 4)]%Q = false.
+Proof. vm_compute. repeat split; reflexivity. Qed.
+
+(* the object holds the raster: with the crop shape floor(fov/sampling) + 2 made even, every scan coordinate in
+   [0, floor(fov/sampling) + 1] moved by the padding lies inside [0, shape - 1]: clip_scan_positions moves nothing *)
+Theorem C02_object_holds_raster :
+  forall F pad (q : Q),
+    0 <= pad -> (0 <= q)%Q -> (q <= inject_Z (F + 1))%Q ->
+    (obj_shape_crop F) mod 2 = 0 /\
+    (0 <= q + inject_Z pad)%Q /\ (q + inject_Z pad <= inject_Z (obj_shape_full (obj_shape_crop F) pad - 1))%Q.
+Proof.
+  exact (fun F pad q Hp H0 H1 => conj (proj1 (obj_shape_crop_spec F)) (raster_inside_object F Hp H0 H1)).
+Qed.
+Print Assumptions C02_object_holds_raster.
+
+(* adjust_padding_power2: for an even object shape and every level >= 1 the adjusted padding makes the padded shape
+   divisible by 2^level, never shrinks the padding and adds less than 2^(level-1); an odd shape raises *)
+Theorem C02_adjust_pad_divisible :
+  forall level s0 s1 p0 p1, 1 <= level -> s0 mod 2 = 0 -> s1 mod 2 = 0 ->
+    exists q0 q1, adjust_pad level s0 s1 p0 p1 = Some (q0, q1) /\
+                  (s0 + 2 * q0) mod 2 ^ level = 0 /\ (s1 + 2 * q1) mod 2 ^ level = 0 /\
+                  p0 <= q0 < p0 + 2 ^ (level - 1) /\ p1 <= q1 < p1 + 2 ^ (level - 1).
+Proof. exact adjust_pad_spec. Qed.
+Print Assumptions C02_adjust_pad_divisible.
+
+Theorem C02_adjust_pad_odd_raises :
+  forall level s0 s1 p0 p1, 1 <= level -> s0 mod 2 = 1 -> adjust_pad level s0 s1 p0 p1 = None.
+Proof. exact adjust_pad_odd_raises. Qed.
+Print Assumptions C02_adjust_pad_odd_raises.
+
+Example C02_nonvacuous_adjust_pad :
+  adjust_pad 3 14 18 4 4 = Some (5, 7) /\ adjust_pad 3 15 18 4 4 = None /\ obj_shape_crop 12 = 14 /\ obj_shape_crop 13 = 16.
+Proof. vm_compute. repeat split; reflexivity. Qed.
+
+(* history of a dataset object: after ANY sequence of preprocessings and target selections, the targets a loss is
+   compared against are never those of an earlier preprocessing, and after a final selection they are the selected
+   array as the last preprocessing wrote it *)
+Theorem C02_targets_never_stale :
+  forall ops st,
+    (forall s v, d_targets st = Some (s, v) -> v = d_version st) ->
+    forall s v, d_targets (drun ops st) = Some (s, v) -> v = d_version (drun ops st).
+Proof. exact targets_never_stale. Qed.
+Print Assumptions C02_targets_never_stale.
+
+Theorem C02_targets_after_history :
+  forall ops st lt learned,
+    d_targets (drun (ops ++ [SetTargets lt learned]) st) = Some (target_source lt learned, d_version (drun ops st)).
+Proof. exact targets_after_history. Qed.
+Print Assumptions C02_targets_after_history.
+
+Example C02_nonvacuous_targets :
+  let st0 := {| d_version := 0; d_targets := None |} in
+  d_targets (drun [Preprocess false; SetTargets L2_intensity false; Preprocess false] st0) = Some (CenteredAmplitudes, 2%nat) /\
+  d_targets (drun [Preprocess false; Preprocess false; SetTargets L1_amplitude false] st0) = Some (CenteredAmplitudes, 2%nat).
+Proof. vm_compute. split; reflexivity. Qed.
